@@ -59,7 +59,8 @@ impl RecvRateSet {
             is_initial: false
         });
 
-        self.entries.retain(|e| now_ms - e.timestamp_ms < 2 * rtt_ms);
+        // The entry just added is always kept, otherwise an RTT estimate of 0 ms would empty the set
+        self.entries.retain(|e| e.timestamp_ms == now_ms || now_ms - e.timestamp_ms < 2 * rtt_ms);
 
         return self.max();
     }
